@@ -105,9 +105,9 @@ SPECS['C11'] = dict(
         ch('restart-bounded', 'harness.c11', 'h_restart', 'real step() vs ghost-history oracle, symbolic times/budget/window/acks',
            timeout=(150, 1200), quick_only=True),
         twin('restart-bounded', 'harness.c11', 'h_restart_twin', 'a run in which RestartFreqExceeded is raised exists', quick_only=True),
-        ch('pool-side', 'harness.c11', 'h_pool_side', 'limiter consulted once per abnormal exit, never for clean/recycle, before the fork; raise prevents the fork; '
-           'acceptance resets the count', timeout=(300, 1500)),
-        twin('pool-side', 'harness.c11', 'h_pool_side_twin', 'a run in which the budget is exceeded exists'),
+    ] + parts(ch('pool-side', 'harness.c11', 'h_pool_side', 'limiter consulted once per abnormal exit, never for clean/recycle, before the fork; raise prevents the fork; '
+           'acceptance resets the count, also the acceptance of a job the caller has given up meanwhile (no longer tracked)', timeout=(300, 1500)), 6)
+      + parts(twin('pool-side', 'harness.c11', 'h_pool_side_twin', 'a run in which the budget is exceeded exists (parts in which the remaining events cannot exceed it: a run admitting a replacement)'), 6) + [
         ch('ack-resets-the-configured-limiter', 'harness.c11', 'h_ack_limiter', 'threaded pool, the Supervisor thread played up to its first sleep as soon as it is started (before the result '
            'handler exists): the limiter held by the result handler\'s accept path is the configured one (max_restarts, max_restart_freq) and an accepted job resets its count',
            timeout=(200, 900), nontrivial_witness=True),
